@@ -57,10 +57,10 @@ CHECKS = {
  "C17": T("fault_enumeration", "tamper enumeration on the real backend files (every byte position x masks, every truncation, extensions, block swaps, multi-byte edits, replacement by another entry's file written with the same key) with Get as the oracle; plaintext-window / nonce / ciphertext-equality scan of every file written through every configuration path, also under overlapping writers (race detector on); unusable keys x configuration paths; tampering under a real transport",
    "A tampered file that yields data, plaintext or a repeated nonce on disk, a wrong key yielding data, or an open without a usable key is a violation.",
    "tampering is judged through Get only", "DESIGN.md 4 C17"),
- "C19": T("exploration", RM + "footprint monitor on the recording store: a finite request alphabet repeated 4*U*(1+H*V) rounds against origins using Vary ('*', alternating sets, alternation with '*', Vary on the validator the cache adds), validation, background refresh and unsuccessful POSTs; key count and index sizes compared with explicit bounds at R/4, R/2, R; emptiness after invalidation, also after a reload whose reply changed the Vary field",
+ "C19": T("exploration", RM + "footprint monitor on the recording store: a finite request alphabet repeated 4*U*(1+H*V) rounds against origins using Vary ('*', alternating sets, alternation with '*', Vary on the validator the cache adds), validation, background refresh and unsuccessful POSTs; key count and index sizes compared with explicit bounds at R/4, R/2, R, and the largest stored value must not keep growing with the rounds; emptiness after invalidation, also after a reload whose reply changed the Vary field",
    "Exceeding U*(1+H*V) keys or H*V index records, or keys left after a successful unsafe request on a store holding only the target's keys, is a violation.",
    "a leak slower than one record per round would need more rounds", "DESIGN.md 4 C19"),
- "C20": T("exploration", RM + "scenario oracle over the full grid latency x background outcome x timeout setting x caller context x validators: foreground duration, number and conditionality of background calls, the exact instant the background request is released, goroutines with repository frames after quiescence; a store-faults part repeats the judgments with one store operation after the entry went stale failing in turn",
+ "C20": T("exploration", RM + "scenario oracle over the full grid latency x background outcome x timeout setting x caller context x validators: foreground duration, number and conditionality of background calls, the exact instant the background request is released, goroutines with repository frames after quiescence; a store-faults part repeats the judgments with one store operation after the entry went stale failing in turn; a burst part issues 2-130 stale hits at one virtual instant against a slow or silent origin (no caller may wait for the revalidations of the others)",
    "A foreground wait, a call count != 1, a missing validator, a release at another instant than min(timeout, reply) - whatever happens to the caller's context -, a leaked goroutine or a failed foreground is a violation.",
    "'never answering' observed for 10T+2h virtual", "DESIGN.md 4 C20"),
  "C16": T("exploration", "Go race detector over free-running random histories with background revalidation (Mode R), snapshot comparison of every returned header map and body at return / quiescence / end of history, and a deterministic gate scheduler (Mode S) that parks every store and origin operation of two concurrent requests and enumerates their interleavings depth-first, judging each outcome against the sequential rules (resource, variant, body token, invalidation epoch); a store-faults part fails every foreground and background store operation in turn under the same ownership monitors, with callers that read the body only after quiescence",
